@@ -81,14 +81,21 @@ def history_sims(rep, rng, quick, *, props, reals=("poly-frac", "poly-float"), c
         rep.add_tlc("ShapeSys-sim-history/" + un, r)
     # deterministic histories from the one-step rows: warm by one query, transform both operands
     # by the same generators, ask again (expected answers: the row's)
-    words = [("f1",), ("r1",), ("m1",), ("s1",), ("r1", "r1"), ("f1", "r1")]
+    words = [("f1",), ("far",), ("r1",), ("rot4",), ("m1",), ("s1",), ("r1", "r1"), ("f1", "r1")]
     warms = ["aa", "ba", "ab", "bb"]
-    for un in (["U2nest", "U2cross", "U2notch"] if quick else U2 + ["U3hole", "U4nest"]):
+    hreals = list(reals) + ["sim-far3-float", "sim-far3-frac"]      # off-centre: a rotation about the origin moves the drawing away
+    for un in (["U2nest", "U3dot", "U2cross", "U2notch", "U2corner"] if quick else U2 + ["U3dot", "U3hole", "U4nest"]):
         u = Universe(un)
         rows = [r for r in models.pair_rows(un) if r["op"] in ("or", "and") and r["a"] not in (0, u.full) and r["b"] not in (0, u.full) and r["cls"] == "T"]
-        rows = runner.sample(rows, 60 if quick else 400, rng)
+        if un in ("U2nest", "U3dot"):
+            # small universe with composite (hollow) regions: every row, the words that move things
+            for k, row in enumerate(r_ for r_ in rows if r_["op"] == "or"):
+                for wd, wm in ((("f1",), "ba"), (("far",), "ab"), (("r1",), "aa")):
+                    jobs.append((un, hreals[(k + len(wd[0])) % len(hreals)], replay.history_case(u, row, wd, wm), {"check_c10": c10}))
+            continue
+        rows = runner.sample(rows, 50 if quick else 600, rng)
         for k, row in enumerate(rows):
-            jobs.append((un, list(reals)[k % len(reals)], replay.history_case(u, row, words[k % len(words)], warms[(k // len(words)) % 4]), {"check_c10": c10}))
+            jobs.append((un, hreals[k % len(hreals)], replay.history_case(u, row, words[k % len(words)], warms[(k // len(words)) % 4]), {"check_c10": c10}))
     res = runner.pool_map(replay.run_case, jobs)
     rep.add_results("hist", res, props=props)
 
@@ -226,7 +233,7 @@ def check_C01(tier, rng, rep):
         rep.add_tlc("ShapeSys-sim/" + un, r)
     res = runner.pool_map(replay.run_case, jobs)
     rep.add_results("sim", res)
-    history_sims(rep, rng, quick, props={"C01"}, num=250)
+    history_sims(rep, rng, quick, props={"C01"}, num=120)
     # (d) code -> spec: recorded random programs validated by TLC
     trace_engine(rep, [rng.choice(U2[2:]), rng.choice(["U3hole", "U3chain"])] if quick else U2[2:] + U3, ["poly-frac", "poly-float"] if quick else POLY + CURVED[:2],
                  ntr=16 if quick else 60, nsteps=10, acts_for_prop={"Bin", "Inv"}, gens=(), maxframe=0)
@@ -312,7 +319,7 @@ def check_C03(tier, rng, rep):
         jobs += query_rows(U3, lambda k: [(POLY + CURVED + EXTRA[:2])[k % 8]], rng, per_universe=3000, classes=("T", "P"))
     res = runner.pool_map(queries.pairq_case, jobs)
     rep.add_results("pairq", res, nontrivial=lambda r: r["row"]["a"] != r["row"]["b"] and r["row"]["a"] and r["row"]["b"])
-    history_sims(rep, rng, quick, props={"C03"})
+    history_sims(rep, rng, quick, props={"C03"}, num=120)
     return rep.finish(tier, rule="ordered pairs of pinch-free regions (rows of ShapeSysExport) x realisation; `B in A`, `A in B`, curves of B in A (closed/open), A in A, and the consequences A|B == A, A&B == B; non-trivial = distinct non-empty regions", exhaustive=not quick)
 
 
@@ -528,7 +535,7 @@ def check_C10(tier, rng, rep):
     # within a history every deviation from the model is a dependence on earlier calls: an object
     # changed by a call on another one (C08), a stale measure after a transformation (C04/C09)
     rep.add_results("sim", res, props={"C10", "C08", "C04", "C09"})
-    history_sims(rep, rng, quick, props=ALLP | {"C10"}, c10=True, num=150)
+    history_sims(rep, rng, quick, props=ALLP | {"C10"}, c10=True, num=100)
     # the same behaviours in fresh interpreters: other hash seeds, cold and pre-warmed
     # module-level memo tables; observation logs must be identical
     sub = runner.sample(list(range(len(jobs))), 24 if quick else 120, rng)
@@ -659,6 +666,10 @@ def check_C11(tier, rng, rep):
     for un, r in sims:
         rep.add_tlc("ShapeSys-sim/" + un, r)
     rep.add_results("sim", runner.pool_map(replay.run_case, jobs2))
+    from . import queries
+    bj = region_jobs(["U3hole", "U2nest"], ["poly-frac", "poly-float", "quad-float"] if quick else POLY + CURVED, rng, per_universe=4 if quick else None,
+                     pred=lambda st, r: r not in (0, st.u.full))
+    rep.add_results("badargs", runner.pool_map(queries.badargs_case, bj))
     rep.assumptions.append("crash points = PY_START events of frames whose code lives under shapepy/ (sys.monitoring), as the property's quantifier states (each internal call boundary); an interrupt between two bytecodes of one frame is not enumerated")
     return rep.finish(tier, rule="for each instrumented client-level call (operators on crossing operands, containment and == between all kinds, float/moment/deepcopy/~/point queries) the uninjected run counts N internal call boundaries; an exception (and KeyboardInterrupt at every 7th point) is raised at sampled k <= N (thorough: 160 per call), with cold and warm caches; after each the operands are compared with the specification record, the query battery, cached orientation, and the call is repeated; recorded mutation events are validated by TLC against Calls", exhaustive=False)
 
@@ -992,7 +1003,7 @@ def main(argv=None):
     try:
         # specification tables are produced (or read from the cache) once, in the parent,
         # before any worker process is forked
-        for un in U2 + U3:
+        for un in U2 + U3 + ["U3dot"]:
             replay._tables(un)
             models.pair_rows(un)
         rc = CHECKS[a.prop](t, rng, rep)
